@@ -143,6 +143,16 @@ def check(case, ctx):
 
     N, nf = case["N"], case["nf"]
     table = gen.table_to_model(case["table"])
+    if case.get("face_order") is not None and len(case["table"]) >= 2:
+        # a second Grid with *another* (fully unlinked) topology and other rules on the same interpreter, used first
+        decoy_case = dict(case, table={f: {} for f in case["table"]}, bnd={a: "extend" for a in AXES}, fill={a: -9.0 for a in AXES}, bsrc="grid")
+        try:
+            import xarray as _xr
+
+            dg = make_grid(decoy_case)
+            pad(_xr.DataArray(np.zeros((case["nf"], N, N)), dims=["face", "yc", "xc"]), dg, boundary_width={"X": (1, 1), "Y": (1, 1)})
+        except Exception:  # noqa: BLE001 - the decoy is only there to leave traces, if any
+            pass
     grid = must_return("Grid construction", make_grid, case)
     fullw = {a: tuple(case["widths"].get(a, (0, 0))) for a in AXES}
     arrs = {k: np.asarray(v, dtype=np.float64) for k, v in case["arrays"].items()}
